@@ -21,7 +21,7 @@ func init() {
 			"R4: every success exit of the constructor passes the routine that recomputes the free counter from the headers; elsewhere the counter is touched only through sync/atomic. " +
 			"R5: Block and the header-coordinate helper reject segm>=segments and idx<0 before computing an offset. " +
 			"R6: in FreeBlock every store hint=x is dominated by the hint>x edge (a hint that moves up hides free blocks). " +
-			"R7: every product that involves both the blocks-per-segment field and the block-size field uses (blocksPerSegment+1): a segment occupies its header block too (sibling agreement on the stride).",
+			"R7: every product that involves both the blocks-per-segment field and the block-size field uses (blocksPerSegment+1): a segment occupies its header block too (sibling agreement on the stride). R8: every path to a non-sentinel result of the geometry function takes an edge that bounds the block size from above (without it (8*bs+1)*bs overflows int and the wrapped geometry is accepted). R9: the constructor compares a value derived from the storage size with a bound derived from the int32 counter maximum before it succeeds.",
 		NotDecided: "disjointness of block byte ranges and the index<->offset arithmetic as values; behaviour of the memory mapping; fairness under concurrency.",
 	})
 }
@@ -489,6 +489,96 @@ func runC17(c *Ctx) {
 			})
 		}
 		c.R.Floor("C17.R7", 4)
+	}
+	// R8: the geometry function bounds the block size from above. A segment takes (8*bs+1)*bs bytes and the offsets
+	// are computed in int: without an upper bound on bs the product wraps (bs = 1<<30 on 64 bit, the everyday
+	// 16384 on 32 bit), the wrapped geometry passes the size test and data blocks land on other segments' headers.
+	// Necessary structural clause: every non-sentinel result of the geometry function is returned under a
+	// dominating comparison that bounds the block-size parameter from above.
+	{
+		p := geom.Params[0]
+		for _, ret := range ir.Returns(geom) {
+			if k, isC := ir.ConstInt(ir.Resolve(ret.Results[0])); isC && k < 0 {
+				continue
+			}
+			// every path to this return takes an edge on which the parameter is bounded from above
+			upper := func(from, to *ssa.BasicBlock) bool {
+				ef := ir.EdgeFact(from, to)
+				if ef == nil {
+					return false
+				}
+				cm, ok := ef.Cmp()
+				if !ok {
+					return false
+				}
+				x, y := ir.Resolve(cm.X), ir.Resolve(cm.Y)
+				if x == ssa.Value(p) && (cm.Op == token.LEQ || cm.Op == token.LSS) {
+					return true
+				}
+				if y == ssa.Value(p) && (cm.Op == token.GEQ || cm.Op == token.GTR) {
+					return true
+				}
+				return false
+			}
+			w, err := (ir.Query{Fn: geom, BlockEdge: upper, Target: func(x ssa.Instruction) bool { return x == ssa.Instruction(ret) }}).Find()
+			if err != nil {
+				c.Undecided("C17.R8", geom, "accepted block sizes are bounded from above", ret, err.Error())
+				continue
+			}
+			bounded := w == nil
+			c.Decide("C17.R8", geom, "accepted block sizes are bounded from above", ret, bounded,
+				"the geometry function accepts arbitrarily large block sizes: (8*bs+1)*bs overflows int, the constructor accepts the wrapped segment size and hands out blocks that overlap the headers of other segments (or reports a zero-segment allocator) instead of ErrInvalid")
+		}
+		c.R.Floor("C17.R8", 1)
+	}
+	// R9: the free counter is narrower than the block count (int32 vs int): the constructor rejects storages with
+	// more blocks than the counter can hold - a dominating comparison of a value derived from the storage size with a
+	// bound derived from the counter's maximum lies on every path to the recount.
+	if b, ok := avail.Type().Underlying().(*types.Basic); ok && b.Kind() == types.Int32 {
+		var fromSize func(v ssa.Value, d int) bool
+		fromSize = func(v ssa.Value, d int) bool {
+			if d > 5 || v == nil {
+				return false
+			}
+			v = ir.Resolve(v)
+			if call, ok := v.(*ssa.Call); ok && call.Call.IsInvoke() && call.Call.Method.Name() == "Size" {
+				return true
+			}
+			switch x := v.(type) {
+			case *ssa.BinOp:
+				return fromSize(x.X, d+1) || fromSize(x.Y, d+1)
+			case *ssa.Convert:
+				return fromSize(x.X, d+1)
+			}
+			return false
+		}
+		var hasMax func(v ssa.Value, d int) bool
+		hasMax = func(v ssa.Value, d int) bool {
+			if d > 5 || v == nil {
+				return false
+			}
+			if k, isC := ir.ConstInt(v); isC {
+				return k >= 1<<15 && k <= 1<<31
+			}
+			switch x := v.(type) {
+			case *ssa.BinOp:
+				return hasMax(x.X, d+1) || hasMax(x.Y, d+1)
+			case *ssa.Convert:
+				return hasMax(x.X, d+1)
+			}
+			return false
+		}
+		for _, ret := range ir.Returns(ctor) {
+			if !possibleSuccessExit(ctor, ret) {
+				continue
+			}
+			ok := hasFactCmp(ret.Block(), func(cm ir.Cmp) bool {
+				return (fromSize(cm.X, 0) && hasMax(cm.Y, 0)) || (fromSize(cm.Y, 0) && hasMax(cm.X, 0))
+			})
+			c.Decide("C17.R9", ctor, "block count fits the free counter", ret, ok,
+				"the free counter is an int32 but the constructor puts no bound on the number of blocks: a storage with 2^31 or more blocks is accepted and Available() (int32(count)) is wrong - negative, or truncated - from the start")
+		}
+		c.R.Floor("C17.R9", 1)
 	}
 }
 
